@@ -19,6 +19,14 @@ PYFILE = "pyyeti/rainflow/py_rain.py"
 SHAPE = [Y.START, "H1", "H2", "H3", Y.EPI]
 
 
+def bound(ctx, cond, text, where):
+    """a rule that did not find the number of sites it is written for has proved nothing: an analysis error, never a violation"""
+    if cond:
+        ctx.ok(text, where, nontrivial=False)
+    else:
+        ctx.error(text + " -- the rule could not bind to this code", where)
+
+
 def check_shape(ts, what):
     """the count loop with its inner loop, then the step-6 loop: anything else is not the three-point stack algorithm this checker can read"""
     heads = [n for n in ts.nodes if n.startswith("H")]
@@ -38,7 +46,7 @@ def implementations(ctx):
     cu = R.CUnit(os.path.join(ctx.repo, CFILE))
     ctx._c05cu = cu
     for nm in ("rainflow1", "rainflow2"):
-        ex = Y.Exec(cu, nm, param_kinds=["array", "int"], label=f"C {nm}").run()
+        ex = Y.Exec(cu, nm, param_kinds=["array", "int"], label=f"C {nm}", array_len={0: 1}).run()
         raw = Y.assign_roles(Y.build_ts(ex))
         check_shape(raw, f"C {nm}")
         out[("C", nm)] = dict(ex=ex, raw=raw, where=f"{CFILE} ({nm})", offsets="os" in raw.allocs, unit=cu)
@@ -46,17 +54,84 @@ def implementations(ctx):
     ctx._c05pu = pu
     for nm in ("_rainflow1", "_rainflow2"):
         fn = ctx.src.func(PYFILE, nm)
-        ex = Y.Exec(pu, nm, param_kinds=["array", "int"], label=f"py {nm}").run()
+        ex = Y.Exec(pu, nm, param_kinds=["array", "int"], label=f"py {nm}", array_len={0: 1}).run()
         raw = Y.assign_roles(Y.build_ts(ex))
         check_shape(raw, f"py {nm}")
         out[("py", nm)] = dict(ex=ex, raw=raw, where=fn, offsets="os" in raw.allocs, unit=pu)
     for k, d in out.items():
+        d["raw0"] = d["raw"]
+        d["raw"] = strengthen(ctx, k, d)
         d["norm"] = Y.normalise(d["raw"])
         want = k[1].endswith("2")
         if d["offsets"] != want:
             raise Unsupported(f"{k[0]} {k[1]}: {'no ' if want else 'an unexpected '}offsets table is allocated")
     ctx._c05impl = out
     return out
+
+
+def analysis(ctx, key, a):
+    """the abstract interpretation (verifier/e8_karr.py: affine equalities, lower bounds, template inequalities; invariants inferred per program)
+    of one implementation's counter program, shared by C05-R4, C05-R5 and `strengthen`; None when it gave up (reported by C05-R4)"""
+    from .e8_karr import GraphAnalysis
+    cache = ctx.__dict__.setdefault("_c05an", {})
+    if key in cache:
+        return cache[key][0]
+    ts = a.get("raw0", a["raw"])
+    Ln = ts.ex.params[1]
+    arrays = {b: ts.allocs[b]["n"] for b in ("pts", "cycle_index") if b in ts.allocs}
+    arrays["peaks"] = V(Ln)          # C05-R7 checks that both entry points pass L = the length of the 1-D peaks array
+    outs = {b: (ts.allocs[b]["rows"], ts.allocs[b]["cols"]) for b in ("rf", "os") if b in ts.allocs}
+    edges = counter_edges(dict(a, raw=ts))
+    parent = {"H1": None, "H2": "H1", "H3": None, Y.EPI: None}
+    try:
+        an = GraphAnalysis(ts.nodes, edges, Y.START, parent, arrays, outs, ts.int_vars(), {}, count_col={"rf": 2}, lower={Ln: 2}).run()
+        cache[key] = (an, edges, outs, None)
+    except Unsupported as e:
+        cache[key] = (None, edges, outs, str(e))
+    return cache[key][0]
+
+
+def strengthen(ctx, key, a):
+    """loop tests written as `p != end` / `p == end` are read as the order tests they are on every reachable state: when the invariant inferred
+    at the source of a transition (plus the tests made before on the same path) proves d <= 0 (or d >= 0), the atom `d == 0` is replaced by the
+    equivalent `-d - 1 >= 0` (`d - 1 >= 0`) with the outcome negated.  An exact rewriting on reachable states; without a proving invariant the
+    atom stays as it is (and an implementation that really leaves its loop only on equality differs from one that leaves it on >=)."""
+    raw = a["raw"]
+    if not any(atom[0] == "ieq" for t in raw.trans for atom, _ in t["key"]):
+        return raw
+    an = analysis(ctx, key, a)
+    if an is None:
+        return raw
+    ex = raw.ex
+    ts = raw.copy()
+    for t in ts.trans:
+        states = [s for s in (an.state.get((t["src"], v)) for v in ("e", "b")) if s is not None and not s.bottom]
+        if not states:
+            continue
+        new, before = [], []
+        for atom, taken in t["key"]:
+            done = False
+            if atom[0] == "ieq":
+                d = ex.aff(atom[1])
+                sts = [s for s in (an.guard(s0, before) for s0 in states) if not s.bottom]
+                if sts and d.c:
+                    if all(s.prove_nonneg(-d) for s in sts):
+                        new.append((("ige", Y.aff_ir(-d - 1)), not taken))
+                        done = True
+                    elif all(s.prove_nonneg(d) for s in sts):
+                        new.append((("ige", Y.aff_ir(d - 1)), not taken))
+                        done = True
+                    if done:
+                        ts.notes.append(f"{t['src']}: `{Y.show(atom)}` read as an order test (one side is excluded by the inferred invariant)")
+            if not done:
+                new.append((atom, taken))
+            if atom[0] == "ige":
+                d = ex.aff(atom[1])
+                before.append(("ge", d if taken else -d - 1))
+            elif atom[0] == "ieq":
+                before.append(("eq" if taken else "ne", ex.aff(atom[1])))
+        t["key"] = new
+    return ts
 
 
 class RefFunc:
@@ -192,6 +267,17 @@ def rows_of(stores, cols):
     return rows
 
 
+def under_guard(t, ts):
+    """the transition with the equalities its own integer tests imply applied to everything it computes (after `end - 3 == 0` the cell
+    `cycle_index[iend - 3]` of a cursor merged with `end` is `cycle_index[0]`, like the `pts[0]` read after the test)"""
+    cons, disj, data = Y.guard_of(t, ts.ex)
+    sub = Y.equalities(cons)
+    if not sub:
+        return t
+    mp = {v: Y.aff_ir(a) for v, a in sub.items()}
+    return Y.map_trans(t, lambda x: Y.subst_vars(x, mp, ts.ex), ts)
+
+
 def r5_lockstep(ctx, entails=None):
     """values and their original positions move together: every store into the reversal stack is mirrored on the position stack, and each
     emitted offset pair names the two points whose range is emitted.  `entails(key, i, e)`: the inferred invariant at the i-th raw transition
@@ -206,6 +292,7 @@ def r5_lockstep(ctx, entails=None):
         for ti, t in enumerate(ts.trans):
             if t["src"] == Y.EPI:
                 continue
+            t = under_guard(t, ts)
             unit = f"{t['src']}->{t['dst']}"
             pts = {repr(i): (i, v) for i, v in t["arrays"].get("pts", [])}
             ci = {repr(i): (i, v) for i, v in t["arrays"].get("cycle_index", [])}
@@ -264,7 +351,7 @@ def r5_lockstep(ctx, entails=None):
             extra = sorted(set(os_) - set(rf))
             if extra:
                 ctx.fail(f"{side} {nm} [{unit}]: an offsets row is written without its value row", a["where"], extra)
-        ctx.check(n >= 6, f"{side} {nm}: lock-step rule bound to {n} stores / rows", a["where"], nontrivial=False)
+        bound(ctx, n >= 6, f"{side} {nm}: lock-step rule bound to {n} stores / rows", a["where"])
 
 
 # ---------------------------------------------------------------------------
@@ -297,6 +384,7 @@ def r6_value_flow(ctx):
         for t in ts.trans:
             if t["src"] == Y.EPI:
                 continue
+            t = under_guard(t, ts)
             unit = f"{t['src']}->{t['dst']}"
             for atom, taken in t["key"]:
                 if _mentions_data(atom, floats):
@@ -339,8 +427,53 @@ def r6_value_flow(ctx):
             for ix, val in t["arrays"].get("os", []):
                 ok = _sel(val, "cycle_index")
                 ctx.check(ok, f"{side} {nm} [{unit}]: offsets come from the position stack", a["where"], None if ok else Y.show(val), nontrivial=False)
-        ctx.check(ntests >= 1 and nrows == 3, f"{side} {nm}: value-flow rule bound to {ntests} data-dependent decisions and {nrows} emission paths", a["where"],
-                  nontrivial=False)
+        bound(ctx, ntests >= 1 and nrows == 3, f"{side} {nm}: value-flow rule bound to {ntests} data-dependent decisions and {nrows} emission paths", a["where"])
+
+
+def input_typed_arithmetic(a, input_typed):
+    """arithmetic nodes (difference, sum, product, negation, |.|) of a kernel all of whose array operands still have the caller's element type
+    (numpy / numba then compute in that type: uint8 - uint8 wraps, int16 + int16 overflows, float32 rounds; Python's literal scalars do not
+    promote).  `input_typed(array role)`: the array holds the caller's element type.  A carried scalar has the type of what was assigned to it."""
+    ts = a["norm"]
+    fl = set(ts.float_vars())
+    vt = {v: None for v in fl}          # carried values: 'in' | 'f64' | None (not yet known)
+
+    def ty(e, bad):
+        k = e[0] if isinstance(e, tuple) and e else None
+        if k == "sel":
+            return "in" if input_typed(e[1]) else "f64"
+        if k == "var":
+            return vt.get(e[1]) if e[1] in fl else None
+        if k in ("bin", "cmp"):
+            x, y = ty(e[2], bad), ty(e[3], bad)
+            r = "f64" if "f64" in (x, y) else ("in" if "in" in (x, y) else None)
+            if k == "bin" and r == "in" and bad is not None:
+                bad.append(Y.show(e))
+            return None if k == "cmp" else r
+        if k in ("abs", "neg"):
+            r = ty(e[1], bad)
+            if r == "in" and bad is not None and not (e[1][0] in ("bin", "abs", "neg")):
+                bad.append(Y.show(e))
+            return r
+        return None
+    for _ in range(4):
+        for t in ts.trans:
+            for v, val in t["scal"].items():
+                if v in fl:
+                    r = ty(val, None)
+                    if r == "in" or (r == "f64" and vt[v] is None):
+                        vt[v] = r
+    bad = []
+    for t in ts.trans:
+        if t["src"] == Y.EPI:
+            continue
+        for v in Y.values_of(t):
+            ty(v, bad)
+    out = []
+    for b in bad:
+        if b not in out:
+            out.append(b)
+    return out
 
 
 # ---------------------------------------------------------------------------
